@@ -158,6 +158,20 @@ CLAIMS = {
         design_ref="DESIGN.md section 3, C19",
         technique="static analysis: lock-region re-entrancy and lockset rules over the resolved call graph + term evaluation of method effects",
     ),
+    "C08": dict(
+        text=("Static rules over the text layer (pyoda_time/text): (R08.1) parse time - for every parse / parse_partial entry the raising constructs located in the text layer (explicit raises, subscripts, "
+              "int(str), str.format ...) that the resolved call graph connects to the entry (closures registered as parse actions, handler tables, bucket overrides included) are each discharged: library "
+              "operations by a dominating guard (ASCII-digit test before int(), index bounded by min(.., length), non-emptiness tests), explicit raises by reachability under their calling contexts - the "
+              "range prover interprets each function from its roots (public / virtual / stored functions) with callees inlined and None-ness, truthiness, isinstance and callable() decided abstractly, so "
+              "overload fall-throughs and argument-dependent raises are judged per call site; (R08.2) the same for every create* / with_* entry with InvalidPatternError as the only allowed class; "
+              "(R08.3) printf-style check of every message that reaches str.format on an error path: constant of the message table, placeholders covered by the arguments at that site; (R08.4) the "
+              "parse actions of every row of every handler table are executed abstractly (closure-aware) to obtain the range each bucket field can hold; with those ranges every range check and "
+              "trusted-constructor precondition reached from the bucket's calculate_value is proved, refuted (violation) or - when it sits behind a calendar query - listed as not decided; (R08.5) "
+              "ParseResult slots exclusive, value types always truthy, `.value` read during parse only after a success test, abstract bucket/pattern methods overridden. NOT decided: raises inside "
+              "calendars / globalization whose guard is a calendar query, formatting of the sample value at creation, resource exhaustion."),
+        design_ref="DESIGN.md section 3, C08",
+        technique="static analysis: interprocedural exception-effect analysis + raise-reachability under calling contexts (interval / None-ness abstract interpretation), closure-aware abstract execution of the pattern builder, format-string arity rule",
+    ),
     "C20": dict(
         text=("Static rules over the zone-data loading code: (R20.1) exception effects - for from_stream, get_ids, for_id, version_id and the DateTimeZoneCache constructor/lookup, the set of "
               "exception classes that can propagate out (explicit raises, resolved callees incl. handler tables, callbacks and virtual dispatch, implicit operator/property calls, modelled raising "
